@@ -1,5 +1,6 @@
 import Dbus.Proofs.Bus.Names
 import Dbus.Props.C07
+import Dbus.Props.C09
 /-
   C05 — unicast messages reach exactly the current owner, once, in order.
 -/
@@ -149,6 +150,21 @@ theorem undeliverable_one_error (t : Tx) (c : ConnId) (m : Msg) (e : Err) :
   · exact Or.inl h
   · refine Or.inr ⟨_, h, by rw [stampDriver_mtype]; rfl, ?_, (stampDriver_busMade t.bus c (known_mkError m e)).1⟩
     rw [replySerial_stampDriver, replySerial_mkError]
+
+/-- **A recipient that is not reading.** When the owner's outgoing queue is over the limit the message
+    is not queued for it or for anybody else; the route ends in an error for the sender (which `finish`
+    turns into exactly one error reply, `undeliverable_one_error`). -/
+theorem stalled_owner_gets_nothing (t : Tx) (c a : ConnId) (m : Msg) (d : Bytes)
+    (hd : m.dest = some d) (ha : t.bus.primary? d = some a) (hfull : queueFull t.bus (some a) = true) (hnr : m.replySerial = 0) :
+    ∃ e, (route t c m).2 = some e ∧ (route t c m).1.out = t.out := by
+  have h := Dbus.Props.C09.full_queue_opens_no_slot t.bus c a m hfull hnr
+  rcases hp : checkPolicy t.bus (some c) (some a) (some a) m with ⟨p, e⟩
+  rw [hp] at h
+  cases e with
+  | none => exact absurd rfl h.2
+  | some e =>
+    obtain ⟨h1, h2, _⟩ := refused_no_delivery t c a m d p e hd ha hp
+    exact ⟨e, h1, h2⟩
 
 /-! ### the delivered copy is the sender's message -/
 
